@@ -41,6 +41,16 @@ CONC_ASSUME = ["interleavings: sequentially consistent, context switches at sync
                "schedule variables are case-split by the executor (every value explored); the solver's part is the choice of operations and the model reported with a violation"]
 
 PROPS = {
+    "C15": {
+        "level": "model_checking",
+        "harnesses": [
+            H("H_C15_shared", "18 generator families (integer, slice, Deferred, self-recursive Deferred, Custom, Filter, Map, SampledFrom, OneOf, Ptr, MapOf, Permutation, String over the package-level rune generator, RuneFrom on a shared range table, regexp character-class caches, AsAny, Float64Range, Deferred nested in a slice); one shared instance, 2 goroutines with their own T and bitstream, 2 operations each from {Draw, String, use as sub-generator of a locally built SliceOfN} (solver-chosen), compared with the same operations on private instances; <=1 (quick) / <=2 (thorough) preemptions", reach=["compared", "value"], quick=Q, thorough=T, race=True, nodiff=True),
+            H("H_C15_three", "the same families, 3 goroutines with one operation each; <=1 preemption", reach=["compared", "value"], quick=Q, thorough=T, race=True, nodiff=True),
+        ],
+        "assumptions": ENGINE_ASSUME + CONC_ASSUME + ["bitstreams are two fixed 24-word buffers (the claim is about schedules and generator families, not about data)",
+                                                        "Make (reflection) and the regexp engine (StringMatching/SliceOfBytesMatching values, compileRegexp) are outside the claim; the regexp caches are exercised through charClassGen/regexpName/expandRangeTable",
+                                                        "user callbacks (Custom/Filter/Map functions) are harness functions without shared state"],
+    },
     "C14": {
         "level": "model_checking",
         "harnesses": [
